@@ -46,6 +46,7 @@ digraph {
         for (v, vtx) in self
             .vertices
             .iter()
+            .filter(|(_, vtx)| vtx.branch != 0)
             .sorted_by_key(|(v, _)| <usize>::clone(v))
         {
             lines.push(format!(
